@@ -116,6 +116,7 @@ func init() {
 		if !*f8 {
 			results = append(results, conc.GatedStress(*seed, 300*time.Millisecond))
 			results = append(results, conc.GatedBrokerStress(*seed, 400*time.Millisecond))
+			results = append(results, conc.SharedConfigProbe())
 		}
 		writeJSON(*out, map[string]interface{}{"results": results})
 		return 0
